@@ -141,7 +141,7 @@ func (h *hostPool) log(vs ...interface{}) {
 	h.trace = append(h.trace, "("+strings.Join(p, ",")+")")
 }
 
-var hostNames = []string{"probe", "probe2", "hvar", "hpair", "hpanic", "hnone", "hfix3", "hzero"}
+var hostNames = []string{"probe", "probe2", "hvar", "hpair", "hpanic", "hnone", "hfix3", "hzero", "hid"}
 
 func (h *hostPool) define(e *env.Env) {
 	e.Define("probe", func(x interface{}) interface{} { h.log(x); return x })
@@ -152,6 +152,7 @@ func (h *hostPool) define(e *env.Env) {
 	e.Define("hnone", func(x interface{}) { h.log(x) })
 	e.Define("hfix3", func(a, b, c interface{}) interface{} { h.log(a, b, c); return c })
 	e.Define("hzero", func() interface{} { h.log(); return int64(7) })
+	e.Define("hid", func(x interface{}) interface{} { return x })
 }
 
 type interpResult struct {
